@@ -10,7 +10,8 @@
 From Coq Require Import List Arith Bool.
 Require Import Mistral.Gen.States Mistral.Gen.Locks.
 Require Import Mistral.Model.Join Mistral.Model.Reverse Mistral.Model.JoinProto Mistral.Model.JoinLife.
-Require Import Mistral.Proofs.JoinProofs Mistral.Proofs.ReverseProofs Mistral.Proofs.JoinProtoProofs Mistral.Proofs.JoinLifeProofs.
+Require Import Mistral.Proofs.JoinProofs Mistral.Proofs.ReverseProofs Mistral.Proofs.JoinProtoProofs Mistral.Proofs.JoinLifeProofs
+  Mistral.Proofs.AffectedProofs.
 Import ListNotations.
 
 (* ---------------------------------------------------------------- direct workflows: the join decision *)
@@ -96,6 +97,22 @@ Theorem C04_step_update : forall sp rows1 r r' rows2,
   evolve1 sp (rows1 ++ r :: rows2) (rows1 ++ r' :: rows2).
 Proof. exact evolve1_update. Qed.
 Print Assumptions C04_step_update.
+
+(* ---------------------------------------------------------------- which joins are re-evaluated when a task completes *)
+
+(* find_indirectly_affected_task_executions: every join execution (j has a row) reachable from the completed task
+   through tasks that are not joins-with-a-row is scheduled for a refresh - all definitions (cycles included), all
+   row sets.  These are the joins whose evaluation can read the completed task (the route search walks inbound
+   transitions only through tasks WITHOUT a row), so a change that can flip a logical state is never missed;
+   the only exception is the completed task itself (j <> src). *)
+Theorem C04_affected_covers : forall sp rows src j,
+  tpath sp rows src j -> jrow sp rows j = true -> j <> src -> In j (affected sp rows src).
+Proof. exact affected_covers. Qed.
+Print Assumptions C04_affected_covers.
+
+Theorem C04_affected_sound : forall sp rows src j, In j (affected sp rows src) -> jrow sp rows j = true.
+Proof. exact affected_sound. Qed.
+Print Assumptions C04_affected_sound.
 
 (* ---------------------------------------------------------------- reverse workflows *)
 
